@@ -290,7 +290,7 @@ func buildIntrinsics() map[string]Intrinsic {
 		key := a[0].ptr()
 		st := side(g.p, key, func() *mutexState { return &mutexState{} })
 		if !st.locked {
-			panic(&goPanic{val: g.w.prog.runtimeError("sync: unlock of unlocked mutex"), site: c.site(), msg: "fatal error: sync: unlock of unlocked mutex", runtime: true})
+			panic(&goPanic{val: g.w.prog.runtimeError("sync: unlock of unlocked mutex"), site: c.stableSite(), msg: "fatal error: sync: unlock of unlocked mutex", runtime: true})
 		}
 		st.locked = false
 		g.p.lockEvent(g, key, 'U')
@@ -323,7 +323,7 @@ func buildIntrinsics() map[string]Intrinsic {
 		key := a[0].ptr()
 		st := side(g.p, key, func() *mutexState { return &mutexState{} })
 		if st.readers <= 0 {
-			panic(&goPanic{val: g.w.prog.runtimeError("sync: RUnlock of unlocked RWMutex"), site: c.site(), msg: "fatal error: sync: RUnlock of unlocked RWMutex", runtime: true})
+			panic(&goPanic{val: g.w.prog.runtimeError("sync: RUnlock of unlocked RWMutex"), site: c.stableSite(), msg: "fatal error: sync: RUnlock of unlocked RWMutex", runtime: true})
 		}
 		st.readers--
 		g.p.lockEvent(g, key, 'r')
@@ -333,7 +333,7 @@ func buildIntrinsics() map[string]Intrinsic {
 		st := side(g.p, a[0].ptr(), func() *wgState { return &wgState{} })
 		st.n += g.forceInt(a[1])
 		if st.n < 0 {
-			panic(&goPanic{val: g.w.prog.runtimeError("sync: negative WaitGroup counter"), site: c.site(), msg: "sync: negative WaitGroup counter", runtime: true})
+			panic(&goPanic{val: g.w.prog.runtimeError("sync: negative WaitGroup counter"), site: c.stableSite(), msg: "sync: negative WaitGroup counter", runtime: true})
 		}
 		return Value{}, true
 	}
@@ -341,7 +341,7 @@ func buildIntrinsics() map[string]Intrinsic {
 		st := side(g.p, a[0].ptr(), func() *wgState { return &wgState{} })
 		st.n--
 		if st.n < 0 {
-			panic(&goPanic{val: g.w.prog.runtimeError("sync: negative WaitGroup counter"), site: c.site(), msg: "sync: negative WaitGroup counter", runtime: true})
+			panic(&goPanic{val: g.w.prog.runtimeError("sync: negative WaitGroup counter"), site: c.stableSite(), msg: "sync: negative WaitGroup counter", runtime: true})
 		}
 		return Value{}, true
 	}
@@ -845,7 +845,7 @@ func addMiscIntrinsics(m map[string]Intrinsic) {
 	}
 	m["context.WithValue"] = func(g *Goroutine, c *frame, fn *ssa.Function, a []Value) (Value, bool) {
 		if a[0].iface() == nil {
-			panic(&goPanic{val: g.w.prog.newError("cannot create context from nil parent"), site: c.site(), msg: "cannot create context from nil parent"})
+			panic(&goPanic{val: g.w.prog.newError("cannot create context from nil parent"), site: c.stableSite(), msg: "cannot create context from nil parent"})
 		}
 		t := g.w.prog.namedType("context", "valueCtx")
 		cell := &Value{K: KAgg, R: []Value{a[0], a[1], a[2]}}
